@@ -72,6 +72,7 @@ def run_property(prop, units, tier, seed, level='proof', jobs=None, replay_fn=No
     bounded_rows = []
     samples = []
     fn_under_contract = set()
+    attempted = []
     assumed = set(assumptions)
     for r in results:
         u = r.unit
@@ -101,7 +102,10 @@ def run_property(prop, units, tier, seed, level='proof', jobs=None, replay_fn=No
                 o = pick[0]
                 samples.append({'unit': u.name, 'obligation': o['property'], 'text': o['description'][:200],
                                 'status': o['status']})
-        if r.status in ('error', 'vacuous', 'undecided'):
+        if getattr(u, 'optional', False) and (r.status == 'undecided' or (r.status == 'error' and re.search(r'timeout|no result|out of memory', r.detail or '', re.I))):
+            # an attempt at a unit that is known to be out of reach of the quick budget: reported, never counted
+            attempted.append({'unit': u.name, 'status': r.status, 'detail': r.detail[:600]})
+        elif r.status in ('error', 'vacuous', 'undecided'):
             undecided.append({'unit': u.name, 'status': r.status, 'detail': r.detail[:1500]})
         if r.status == 'fail':
             for fo in r.failing:
@@ -178,6 +182,7 @@ def run_property(prop, units, tier, seed, level='proof', jobs=None, replay_fn=No
         'units_ok': sum(1 for r in results if r.status == 'ok'),
         'bounded': bounded_rows,
         'undecided': undecided,
+        'attempted_not_decided': attempted,
         'known_findings_hit': [{'what': k.get('what'), 'obligation': fo['property'], 'unit': u.name}
                                for k, u, fo in known_hits],
         'samples': samples or [{'note': 'no unit completed'}],
